@@ -49,6 +49,10 @@ func (vc *VC) call(fr *frame, st *State, site ssa.Instruction, c *ssa.CallCommon
 			vc.callsViaCheck(fr, st, site, vc.toTerm(recv))
 			return mkResult(vc.contractCall(fr, st, site, fc, nil, all, ptypes, resT))
 		}
+		if vc.isHeapPure(key) {
+			vc.note("heap-pure external: " + key)
+			return mkResult(vc.freshResults(st, site, resT))
+		}
 		return mkResult(vc.unknownCall(fr, st, site, key, resT))
 	}
 	switch callee := c.Value.(type) {
@@ -614,6 +618,18 @@ func (vc *VC) contractCall(fr *frame, st *State, site ssa.Instruction, fc *FuncC
 	}
 	name := fc.Key[strings.LastIndex(fc.Key, "/")+1:]
 	siteHint := vc.posHint(fr, site)
+	if vc.monitor != nil {
+		switch fc.Key {
+		case "sync.RWMutex.Lock", "sync.RWMutex.RLock", "sync.Mutex.Lock":
+			if vc.lockReleased {
+				vc.monitorReacquire(st)
+			}
+		case "sync.RWMutex.Unlock", "sync.RWMutex.RUnlock", "sync.Mutex.Unlock":
+			if vc.dry == 0 {
+				vc.lockReleased = true
+			}
+		}
+	}
 	pre := vc.contractEnv(st, st.heap, fc, args, ptypes)
 	// interior-pointer receivers of externs (embedded mutexes, atomics) are addressed by location
 	for i, c := range fc.Requires {
@@ -644,6 +660,11 @@ func (vc *VC) contractCall(fr *frame, st *State, site ssa.Instruction, fc *FuncC
 	}
 	oldHeap := st.heap.Clone()
 	allocates := len(fc.Allocates) > 0 || fc.Opaque
+	for _, c := range fc.Ensures {
+		if exprMentionsCall(c.E, "fresh") {
+			allocates = true // a postcondition that promises a fresh object implies the callee allocates
+		}
+	}
 	var freshComps []string
 	if body != nil {
 		sum := vc.summarize(body)
@@ -1065,4 +1086,80 @@ func noInline(f *ssa.Function) bool {
 		return true
 	}
 	return false
+}
+
+
+// monitorReacquire: the monitor's lock is taken again after it was released earlier in the same function.
+// Between the two critical sections other goroutines may have changed everything the lock guards, so the
+// guarded state is forgotten and only the monitor invariant (the function's own precondition, minus its
+// lock-state conjuncts) is known of it. Whatever was read under the earlier critical section is stale.
+func (vc *VC) monitorReacquire(st *State) {
+	var targets []modTarget
+	for _, g := range vc.monitor.Guards {
+		if _, ok := vc.comps[g]; ok {
+			targets = append(targets, modTarget{comp: g, whole: true})
+		}
+	}
+	vc.applyHavoc(st, targets, true, nil)
+	vc.assumeStateAxioms(st)
+	vc.note("guarded state is forgotten when a monitor lock is re-acquired after a release (only the monitor invariant is kept)")
+	fc := vc.contract
+	if fc == nil {
+		return
+	}
+	env := &Env{vc: vc, heap: st.heap, old: vc.entry, vars: vc.topParams, cf: vc.fileOf(fc), pkgPath: vc.pkgOf(fc)}
+	for _, c := range fc.Requires {
+		for _, cj := range env.conjuncts(c.E, "", 0) {
+			if exprMentionsCall(cj.e, "held") {
+				continue
+			}
+			t, err := cj.env.EvalBool(cj.e)
+			if err != nil {
+				vc.fail("monitor invariant: %v", err)
+			}
+			vc.assume(st, t)
+		}
+	}
+}
+
+func exprMentionsCall(x Expr, fn string) bool {
+	found := false
+	var walk func(e Expr)
+	walk = func(e Expr) {
+		if found || e == nil {
+			return
+		}
+		switch v := e.(type) {
+		case ECall:
+			if v.Fn == fn {
+				found = true
+				return
+			}
+			for _, a := range v.Args {
+				walk(a)
+			}
+		case EUnary:
+			walk(v.X)
+		case EBinary:
+			walk(v.X)
+			walk(v.Y)
+		case ESel:
+			walk(v.X)
+		case EIndex:
+			walk(v.X)
+			walk(v.I)
+		case EQuant:
+			walk(v.Body)
+		case ECond:
+			walk(v.C)
+			walk(v.A)
+			walk(v.B)
+		case EAssert:
+			walk(v.X)
+		case ETypeIs:
+			walk(v.X)
+		}
+	}
+	walk(x)
+	return found
 }
